@@ -53,6 +53,15 @@ reg('C08', 'hjmc', 'model_checking',
     'observable snapshot and one set of accepted calls - order independence as a state-space invariant, no sampling of interleavings.',
     HJ_NOTE, 'explicit-state model checking of the implementation (state-graph invariant over all interleavings)', 'DESIGN.md 2.1, 3/C08')
 
+reg('C16', 'sched', 'model_checking',
+    'Stateless exhaustive exploration of thread interleavings of the real code: 2-3 real threads under a baton scheduler, a scheduling point before '
+    'every source line executed inside athlib/ (sys.settrace), all schedules with at most 1-2 pre-emptions (iterative context bounding, per-scenario '
+    'bound in the evidence), first-call and warmed-up starting states restored generically before every execution; each thread result is compared '
+    'with the same call run alone. Violating schedules are replayed twice for determinism before being reported.',
+    'Line granularity (a switch inside one source line is not modelled); bounded pre-emptions; CPython 3.12 sys.settrace delivers every athlib line; '
+    'locks created at athlib import are replaced by baton-aware locks, Condition/Event unsupported.',
+    'stateless model checking of the implementation (controlled scheduler, iterative pre-emption bounding)', 'DESIGN.md 2.3, 3/C16')
+
 ALL = ['C%02d' % i for i in range(1, 20)]
 PENDING_REASON = 'check not yet built in this session (planned, see DESIGN.md section 7); not claimed until it runs clean'
 
